@@ -22,21 +22,18 @@ def run(ctx):
         s["sid"] = i
     by_sid = {s["sid"]: s for s in scns}
     mviol = [s for s in scns if s["mviol"]]
-    evs = sc.replay(ctx, scns, "replay_c19")
-    lap("replay done")
-    rows = []
-    for s in scns:
-        rows.extend(sc.rows_of(s, evs[s["sid"]]))
-    rej, _, n = sc.validate(ctx, rows, "c19", nshards=14)
-    lap("validation done")
-    ctx.traces += n
-    rejected = {(r["sid"], r["k"]) for r, _ in rej}
-    # ---- vacuity
     acc = {"resumed12": 0, "resumed13": 0, "full": 0, "offered_ticket": 0, "second_name": 0, "late_clock": 0, "rotated_keys": 0,
            "same_as_previous": 0, "no_ems_spec": 0, "hrr": 0, "doc_panic": 0}
-    for s in scns:
-        for k, (cd, ev) in enumerate(zip(s["conns"], evs[s["sid"]]), 1):
-            if (s["sid"], k) in rejected:
+    keep = {}       # canary material: accepted connections (scenario, events, k) by kind
+    samples = []
+    def same(p, cd):
+        return all(p[f] == cd[f] for f in ("spec", "name", "srv", "clock"))
+    def visit(s, es, rejected_ks):
+        if len(samples) < 3 and s["sid"] % max(1, len(scns) // 3) == 1:
+            samples.append({"history": ["%s %s %s keys%d day%d" % (sc.spec_label(c["spec"]), c["name"], sc.srv_label(c["srv"]), c["srv"]["keys"], c["clock"]) for c in s["conns"]],
+                            "resumed": [[e["c_resumed"], e["s_resumed"]] for e in es], "model_as_coded": s["pred0"], "model_repaired": s["pred1"]})
+        for k, (cd, ev) in enumerate(zip(s["conns"], es), 1):
+            if k in rejected_ks:
                 continue
             if ev["c_resumed"] and ev["s_resumed"]:
                 acc["resumed13" if ev["c_vers"] == 772 else "resumed12"] += 1
@@ -51,27 +48,29 @@ def run(ctx):
             acc["hrr"] += len(ev["hellos"]) == 2
             acc["doc_panic"] += any(o["res"] == "panic" for o in ev["ops"])
             if k > 1:
-                p = s["conns"][k - 2]
-                acc["same_as_previous"] += all(p[f] == cd[f] for f in ("spec", "name", "srv", "clock"))
+                req = same(s["conns"][k - 2], cd) and ev["c_resumed"] and ev["s_resumed"]
+                acc["same_as_previous"] += same(s["conns"][k - 2], cd)
+                if req:
+                    keep.setdefault("required", (s, es, k))
+                if ev["c_resumed"]:
+                    keep.setdefault("resumed", (s, es, k))
+                if ev["hs_ok"] and ev["ctl_ok"]:
+                    keep.setdefault("ok", (s, es, k))
+                if ev["c_resumed"] and ev["c_vers"] == 771 and ev["before"]["ems"]:
+                    keep.setdefault("ems", (s, es, k))
+    rej, _, n = sc.process(ctx, scns, "c19", visit)
+    lap("replay + validation done")
+    ctx.traces += n
     missing = [k for k, v in acc.items() if v == 0]
     if missing:
         raise vlib.Machinery("C19 vacuous: nothing accepted for %s (accepted: %r)" % (missing, acc))
     # ---- binding canaries
-    def find(pred):
-        for s in scns:
-            for k, (cd, ev) in enumerate(zip(s["conns"], evs[s["sid"]]), 1):
-                if (s["sid"], k) not in rejected and k > 1 and pred(s, k, cd, ev):
-                    return s, k
-        return None, 0
-    def required(s, k, cd, ev):
-        p = s["conns"][k - 2]
-        return all(p[f] == cd[f] for f in ("spec", "name", "srv", "clock")) and ev["c_resumed"] and ev["s_resumed"]
     canaries = []
-    def mutate(pick, f, what):
-        s, k = pick
-        if s is None:
+    def mutate(kind, f, what):
+        if kind not in keep:
             raise vlib.Machinery("C19: no accepted connection to build canary '%s' from" % what)
-        rs = copy.deepcopy(sc.rows_of(s, evs[s["sid"]]))
+        s, es, k = keep[kind]
+        rs = copy.deepcopy(sc.rows_of(s, es))
         for r in rs:
             r["sid"] = 900000 + len(canaries)
         f(rs[k - 1]["ev"])
@@ -92,12 +91,12 @@ def run(ctx):
                 raw[i] = 0x7b
                 return
         raise vlib.Machinery("canary: no extended_master_secret in the wire hello")
-    mutate(find(required), lambda ev: ev.__setitem__("c_resumed", False), "client DidResume flipped on a required resumption")
-    mutate(find(required), lambda ev: ev.__setitem__("s_resumed", False), "server DidResume flipped on a required resumption")
-    mutate(find(lambda s, k, cd, ev: ev["c_resumed"]), flip_offer, "offered ticket byte changed")
-    mutate(find(lambda s, k, cd, ev: ev["hs_ok"] and ev["ctl_ok"]), lambda ev: ev.update(hs_ok=False, c_resumed=False), "client handshake failure injected")
-    mutate(find(lambda s, k, cd, ev: ev["hs_ok"] and ev["ctl_ok"]), lambda ev: ev.update(s_ok=False), "server abort injected")
-    mutate(find(lambda s, k, cd, ev: ev["c_resumed"] and ev["c_vers"] == 771 and ev["before"]["ems"]), drop_ems, "extended_master_secret removed from a hello offering an EMS session")
+    mutate("required", lambda ev: ev.__setitem__("c_resumed", False), "client DidResume flipped on a required resumption")
+    mutate("required", lambda ev: ev.__setitem__("s_resumed", False), "server DidResume flipped on a required resumption")
+    mutate("resumed", flip_offer, "offered ticket byte changed")
+    mutate("ok", lambda ev: ev.update(hs_ok=False, c_resumed=False), "client handshake failure injected")
+    mutate("ok", lambda ev: ev.update(s_ok=False), "server abort injected")
+    mutate("ems", drop_ems, "extended_master_secret removed from a hello offering an EMS session")
     crow = [r for _, rs, _ in canaries for r in rs]
     crej, _, _ = sc.validate(ctx, crow, "c19canary", nshards=1)
     caught = {(r["sid"], r["k"]) for r, _ in crej}
@@ -113,10 +112,6 @@ def run(ctx):
             why, row["k"], "; ".join("%s %s %s keys%d day%d" % (sc.spec_label(c["spec"]), c["name"], sc.srv_label(c["srv"]), c["srv"]["keys"], c["clock"]) for c in s["conns"]),
             sc.first_failure(row["ev"])),
             {"scenario": {"sid": s["sid"], "conns": s["conns"]}, "why": why, "k": row["k"]})
-    samples = []
-    for s in scns[:: max(1, len(scns) // 3)][:3]:
-        samples.append({"history": ["%s %s %s keys%d day%d" % (sc.spec_label(c["spec"]), c["name"], sc.srv_label(c["srv"]), c["srv"]["keys"], c["clock"]) for c in s["conns"]],
-                        "resumed": [[e["c_resumed"], e["s_resumed"]] for e in evs[s["sid"]]], "model_as_coded": s["pred0"], "model_repaired": s["pred1"]})
     cov = {"evaluations": n, "distinct_nontrivial": len(scns),
            "rule": "every history of 3 connections over one ClientSessionCache that Session_MC enumerates: parrots {ticket-only, PSK with/without OmitEmptyPsk, no session extension, TLS 1.2 EMS parrot, the same spec minus extended_master_secret, PSK without ticket extension, custom ticket-only without PreferSkip%s} x servers {TLS 1.2, TLS 1.3, TLS 1.3 + HelloRetryRequest} x ticket keys {1,2} x names {a,b} x clock {0, +8 days}; first connection name a/day 0/keys 1, third connection %s; each connection also runs against an empty cache (control); evaluations = connections judged, distinct = histories" % (
                ", more PSK/PQ/Firefox/360 parrots" if deep else "", "over the parrots/servers/names of the first two" if deep else "repeats the second or the first"),
